@@ -406,7 +406,32 @@ class Interp:
         raise PyvcUnsupported("unary op")
 
     def ev_BoolOp(self, e, st):
-        vals = [self.truth(self.ev(x, st)) for x in e.values]
+        # short-circuit: operand i is evaluated under the assumption that the operands before it did not decide the result, so that
+        # safety obligations of a guarded operand (`not xs or xs[-2] != v`) carry their guard; the assumption is withdrawn afterwards
+        is_and = isinstance(e.op, ast.And)
+        vals = []
+        guard_terms = []
+        base = len(st.pc)
+        for x in e.values:
+            v = self.truth(self.ev(x, st))
+            vals.append(v)
+            if isinstance(v, bool):
+                if v != is_and:
+                    break                  # decided: later operands are not evaluated
+                continue
+            g = v if is_and else z3.Not(v)
+            guard_terms.append(g)
+            st.pc.append(g)
+        if guard_terms:
+            added = st.pc[base:]
+            del st.pc[base:]
+            active = []
+            for c_ in added:
+                # the guards themselves are withdrawn; whatever a stub assumed while guards were active is kept under those guards
+                if any(c_ is g_ for g_ in guard_terms):
+                    active.append(c_)
+                else:
+                    st.pc.append(z3.Implies(z3.And(*active), c_) if active else c_)
         if all(isinstance(v, bool) for v in vals):
             return all(vals) if isinstance(e.op, ast.And) else any(vals)
         ts = [v if isinstance(v, z3.BoolRef) else z3.BoolVal(v) for v in vals]
@@ -431,6 +456,16 @@ class Interp:
                     r = left in right
                 if isinstance(op, ast.NotIn):
                     r = S.SymBool(z3.Not(r.t)) if isinstance(r, S.SymBool) else (not r)
+            elif (isinstance(op, (ast.Eq, ast.NotEq)) and isinstance(left, tuple) and isinstance(right, tuple)
+                  and any(isinstance(x, (S.SymReal, S.SymBool)) for x in left + right)):
+                # tuple (in)equality with symbolic components: equal iff same arity and all components equal
+                if len(left) != len(right):
+                    r = isinstance(op, ast.NotEq)
+                else:
+                    with self._ctx(st):
+                        parts = [self.truth(a_ == b_) for a_, b_ in zip(left, right)]
+                    conj = z3.And(*[p if isinstance(p, z3.BoolRef) else z3.BoolVal(p) for p in parts])
+                    r = S.SymBool(z3.Not(conj) if isinstance(op, ast.NotEq) else conj)
             else:
                 with self._ctx(st):
                     r = _CMP[type(op)](left, right)
